@@ -276,7 +276,25 @@ class Crypto(object):
         return _pyvc().BoundMethod(obj, _drop_self(call))
 
 
-MODELS = {"Connection": Connection, "Engine": Engine, "Proxy": Proxy, "Crypto": Crypto}
+class Config(object):
+    """configparser.ConfigParser as seen by ConfigHelper: get(section, option) returns the option's
+    text - which may be a password, so it carries the label `secret` - or raises; the text of the
+    error may quote the raw value (InterpolationSyntaxError does: "'%' must be followed by ...,
+    found: '<rest of the value>'"), so it carries the label too."""
+
+    @model
+    def get(I, args, kw):
+        P = I.path
+        sec = frozenset(['secret'])
+        if P.choose(2, "config-get-raises") == 1:
+            e = ExcVal(Exception, (SSeq('str', [('s', fresh("config_error_text", IntSeq))], sec),))
+            e.fields['__unknown_subclass__'] = True
+            P.event('raise', 'Exception')
+            raise _pyvc().Raised(e)
+        return SSeq('str', [('s', fresh("config_value", IntSeq))], sec)
+
+
+MODELS = {"Connection": Connection, "Engine": Engine, "Proxy": Proxy, "Crypto": Crypto, "Config": Config}
 
 
 def make(name, I, label):
@@ -289,6 +307,8 @@ def make(name, I, label):
         return o
     if name == "Crypto":
         return Obj(Crypto, {}, label)
+    if name == "Config":
+        return Obj(Config, {}, label)
     if name in ("Proxy", "ProxyNoMessage"):
         o = Obj(Proxy, {'__messages__': name == "Proxy"}, label)
         return o
